@@ -1,0 +1,29 @@
+//go:build verif
+
+package build
+
+import (
+	"github.com/gopherjs/gopherjs/build/cache"
+	"github.com/gopherjs/gopherjs/compiler"
+)
+
+// Verification hook (add-only, guarded by the "verif" build tag): NewSession currently leaves the
+// build cache disabled (disableDefaultCache), so the C20 check installs it explicitly to exercise
+// the Load/Store call sites of LoadPackages end to end.
+
+// VerifSetBuildCache installs c as the session's build cache (nil disables caching).
+func (s *Session) VerifSetBuildCache(c cache.Cache) { s.buildCache = c }
+
+// VerifDefaultBuildCache returns the BuildCache that NewSession would configure for this session.
+func (s *Session) VerifDefaultBuildCache() *cache.BuildCache {
+	env := s.xctx.Env()
+	return &cache.BuildCache{
+		GOOS:          env.GOOS,
+		GOARCH:        env.GOARCH,
+		GOROOT:        env.GOROOT,
+		GOPATH:        env.GOPATH,
+		BuildTags:     append([]string{}, env.BuildTags...),
+		TestedPackage: s.options.TestedPackage,
+		Version:       compiler.Version,
+	}
+}
